@@ -325,7 +325,7 @@ pub fn on_world_stopped() {
 // ------------------------------------------------------------------------------------------------
 
 /// Verify one object by its shadow record.  Returns false when the object could not be read.
-fn verify_object(sh: &Shadow, o: &SObj, why: &str, prop: &str) -> bool {
+fn verify_object(sh: &Shadow, o: &SObj, why: &str, prop: &str, nursery_gc: bool) -> bool {
     let start = start_of(o.addr);
     if !world::readable(start, o.size as usize) {
         violation(prop, format!("heap:{}:unmapped", why), format!("object id {} ({}) at {:#x} size {} is not in mapped memory", o.id, why, o.addr, o.size));
@@ -350,6 +350,12 @@ fn verify_object(sh: &Shadow, o: &SObj, why: &str, prop: &str) -> bool {
         }
         if v != want {
             let kind = if v == 0 { "nulled" } else if want == 0 { "not-null" } else { "stale-or-wrong" };
+            // An object that survived earlier pauses holds a reference to an object allocated
+            // since the last pause, and a nursery collection did not update it: only the
+            // remembered set could have told the collector about that slot.
+            if nursery_gc && prop != "C05" && o.survived >= 1 && sh.objs.get(f).map(|t| t.survived == 0).unwrap_or(false) {
+                violation("C05", "heap:old-to-young-slot-not-updated-by-nursery-gc", format!("object id {} (survived {} pauses) at {:#x} slot {} holds {:#x} after a nursery GC, expected {:#x} (young object id {})", o.id, o.survived, o.addr, i, v, want, f));
+            }
             violation(prop, format!("heap:{}:slot-{}", why, kind), format!("object id {} at {:#x} slot {} holds {:#x}, expected {:#x} (id {}); referent-slot={}", o.id, o.addr, i, v, want, f, o.kind != KIND_NORMAL && i == 0));
             return false;
         }
@@ -476,7 +482,7 @@ pub fn on_pause_end() {
         };
         let why = if pre.remset_only.contains(id) { "remset-only" } else if pre.s0.contains(id) || !pre.valid { "reachable" } else { "retained" };
         let prop = if pre.remset_only.contains(id) { "C05" } else if why == "retained" && sh.fin_registered.contains_key(id) { "C06" } else { "C01" };
-        if verify_object(sh, o, why, prop) {
+        if verify_object(sh, o, why, prop, pre.valid && info.nursery) {
             verified += 1;
             if pre.remset_only.contains(id) {
                 remset_verified += 1;
@@ -874,7 +880,7 @@ fn check_satb(sh: &mut Shadow, info: &mmtk::verif::GcInfo, live: &HashSet<u64>) 
                     }
                     let Some(o) = sh.objs.get(id) else { continue };
                     unreachable_now += 1;
-                    if verify_object(sh, o, "satb-snapshot", "C12") {
+                    if verify_object(sh, o, "satb-snapshot", "C12", false) {
                         checked += 1;
                         #[cfg(feature = "f_vo")]
                         {
